@@ -203,9 +203,48 @@ def directed(ctx):
             ctx.violation(f"lookup:{why}", f"directed: lookup({e.how}, {k!r}) = {got!r}, expected {exp!r}", {"directed": True})
 
 
+def bare_roots(ctx):
+    """streams whose bottom node is no call: ObjectStream(ast.Name(..)) - what the library itself builds to follow a nested lambda
+    and hands to callbacks. QMetaData directly on such a root, consecutively, through operators; short random histories"""
+    import ast
+
+    from func_adl import ObjectStream
+    from func_adl.ast.meta_data import lookup_query_metadata
+
+    for hseed in range(12):
+        rnd = random.Random(hseed * 31 + ctx.seed)
+        root = ObjectStream(ast.Name(id="e", ctx=ast.Load()))
+        streams = [(root, {}, "root")]
+        for step in range(rnd.randint(3, 12)):
+            s, model, how = rnd.choice(streams[-4:])
+            k = rnd.random()
+            if k < 0.5:
+                d = {rnd.choice(KEYS): rnd.choice([1, 2, "x", (1, 2), 0, False, ""])}
+                ns, nm, nh = s.QMetaData(dict(d)), {**model, **d}, how + f".QMetaData({d})"
+            elif k < 0.7:
+                ns, nm, nh = s.Select("lambda x: x.pt"), dict(model), how + ".Select"
+            elif k < 0.85:
+                ns, nm, nh = s.Where("lambda x: x.pt > 1"), dict(model), how + ".Where"
+            else:
+                ns, nm, nh = s.MetaData({"m": step}), dict(model), how + ".MetaData"
+            streams.append((ns, nm, nh))
+            for st, mo, ho in streams:
+                for key in KEYS:
+                    ctx.count("lookup-probes")
+                    ctx.evaluations += 1
+                    got, exp = lookup_query_metadata(st, key), mo.get(key)
+                    if differs(got, exp):
+                        why = "earlier-key-lost" if exp is not None and got is None else ("sees-unset-key" if exp is None else "wrong-value")
+                        ctx.violation(f"lookup:{why}", f"stream rooted in a bare name: lookup({ho[-160:]}, {key!r}) = {got!r}, model says {exp!r}", {"bare_roots": True})
+                        return
+        ctx.case(f"bare-root-history:{hseed}", True)
+    ctx.count("bare-root-histories", 12)
+
+
 def shard_main(ctx):
     if ctx.shard == 0:
         directed(ctx)
+        bare_roots(ctx)
     for i in range(N_CASES[ctx.tier]):
         if ctx.out_of_time():
             ctx.count("stopped-by-time-budget")
@@ -215,7 +254,9 @@ def shard_main(ctx):
 
 
 def replay(ctx, witness):
-    if witness.get("directed"):
+    if witness.get("bare_roots"):
+        bare_roots(ctx)
+    elif witness.get("directed"):
         directed(ctx)
     else:
         run_history(ctx, witness["hist_seed"], witness["nsteps"])
